@@ -45,7 +45,8 @@ def eval_case(case):
         chain = case["chain"]
         pre = precompute(W, chain[0])
         for a, b in zip(chain, chain[1:]):
-            L.call("embedded_pairing_wkdibe_adjust_precomputed", pre, W.params.buf, W.al(a), W.al(b))
+            ala, alb = W.al_pair(a, b, share=case.get("share", False))
+            L.call("embedded_pairing_wkdibe_adjust_precomputed", pre, W.params.buf, ala, alb)
         direct = precompute(W, chain[-1])
         if not g1eq(W, pre, direct):
             msgs.append("adjust_precomputed along %s != precompute(target)" % (" -> ".join(str(c["e"]) for c in chain)))
@@ -73,7 +74,8 @@ def eval_case(case):
         n = min(max(child.l, 0), cur.slots)
         ffi.ctypes.memmove(cur.b, child.b.raw[:fs * n], fs * n)
         for a, b in zip(chain, chain[1:]):
-            L.call("embedded_pairing_wkdibe_adjust_nondelegable", cur.buf, key.buf, W.al(a), W.al(b))
+            ala, alb = W.al_pair(a, b, share=case.get("share", False))
+            L.call("embedded_pairing_wkdibe_adjust_nondelegable", cur.buf, key.buf, ala, alb)
         direct = W.apply(key, ["ndqualify", chain[-1]])
         if cur.overrun():
             msgs.append("adjust_nondelegable wrote beyond parent.l slots")
@@ -179,6 +181,17 @@ def run_shard(ctx, shard):
             kind = outcome
             ctx.fail(case, "; ".join(msgs[:3]), sig=kind)
 
+    def shareable(chain):
+        """consecutive lists whose entries are prefixes of one another can be two headers over one attribute array (same array, other length
+        and / or other omitAllFromKeysUnlessPresent): inputs that overlap in memory are legal, and the result must not depend on it"""
+        ok = False
+        for a, b in zip(chain, chain[1:]):
+            ea, eb = a["e"], b["e"]
+            lo, sh = (ea, eb) if len(ea) >= len(eb) else (eb, ea)
+            if [list(e) for e in lo[:len(sh)]] == [list(e) for e in sh] and (ea != eb or a["omit"] != b["omit"]):
+                ok = True
+        return ok
+
     def klass(chain):
         names = {c for L in chain for _, c in L["e"]}
         if names & {"0", "r", "r+v1", "max", "1", "sp"}:
@@ -192,6 +205,8 @@ def run_shard(ctx, shard):
         pairs = list(itertools.product(Ls, Ls))[shard["part"]::shard["parts"]]
         for F, T in pairs:
             emit({"sub": "pre", "cfg": shard.get("cfg", "asm"), "l": 3, "sig": False, "seed": seed, "chain": [F, T]}, F != T, "pre-pair:" + klass([F, T]))
+            if shareable([F, T]):
+                emit({"sub": "pre", "cfg": shard.get("cfg", "asm"), "l": 3, "sig": False, "seed": seed, "chain": [F, T], "share": True}, True, "pre-pair:shared-attribute-array")
             if ctx.out_of_time():
                 return
     elif sub == "pre-chains":
@@ -220,6 +235,8 @@ def run_shard(ctx, shard):
                 pairs = list(itertools.product(perm, perm))
             for F, T in pairs:
                 emit(dict(base, sub="nd", chain=[F, T]), F != T, "nd-pair:" + klass([F, T]) + ("+omit-all" if T["omit"] or F["omit"] else ""))
+                if shareable([F, T]):
+                    emit(dict(base, sub="nd", chain=[F, T], share=True), True, "nd-pair:shared-attribute-array" + ("+other-omit-all" if T["omit"] != F["omit"] else ""))
                 if not sig:
                     for g in ("zero", "foreign"):
                         emit(dict(base, sub="nd", chain=[F, T], garbage=g), F != T, "nd-pair-stale-slots:" + g)
@@ -241,7 +258,7 @@ def replay(ctx, case):
 
 def finish(merged, cov):
     for need in ("pre-pair:plain", "pre-pair:hidden-entry", "pre-pair:special-ids", "pre-chain:plain", "nd-pair:plain", "nd-pair:hidden-entry", "nd-pair:plain+omit-all",
-                 "nd-chain", "encrypt_precomputed", "long-lists"):
+                 "nd-chain", "encrypt_precomputed", "long-lists", "pre-pair:shared-attribute-array", "nd-pair:shared-attribute-array", "nd-pair:shared-attribute-array+other-omit-all"):
         if not merged.outcomes.get(need):
             return "class %s never exercised" % need
     cov["states"] = merged.extra.get("abstract_states", 1)
